@@ -85,3 +85,55 @@ func HEndToEnd() {
 }
 
 func init() { verifHarnesses["HEndToEnd"] = HEndToEnd }
+
+// HEndToEndBig (C01): the same three-stage composition at the real block size: a prior
+// destination file of m bytes (m around multiples of 700, fixed pattern) and a source that
+// equals it except for one symbolic byte at position pos and an optional symbolic tail of
+// t bytes. Covers block-aligned files, the remainder block and matches of the last block.
+func HEndToEndBig() {
+	m, pos, t := vparam("m"), vparam("pos"), vparam("t")
+	fsys := vfsx.New()
+	defer fsys.Cleanup()
+	prior := make([]byte, m)
+	for i := range prior {
+		prior[i] = byte(i*31 + i>>8 + 7)
+	}
+	src := make([]byte, m, m+t)
+	copy(src, prior)
+	if pos >= 0 {
+		src[pos] = nd_u8()
+	}
+	src = append(src, nd_bytes(t)...)
+	fsys.Add(&vfsx.Node{Name: "f", Kind: vfsx.KReg, Perm: 0o644, Data: prior, Sec: 5})
+	seed := nd_i32()
+	opts := &receiver.TransferOpts{IgnoreTimes: true, PreservePerms: true}
+	rt, genOut := receiver.VerifNewTransfer(fsys, seed, opts)
+	f := &receiver.File{Name: "f", Length: int64(len(src)), ModTime: time.Unix(9, 0), Mode: 0o100644}
+	fl := []*receiver.File{f}
+	err := receiver.VerifGenerate(rt, fl)
+	vassert(err == nil, "generator failed")
+	if err != nil {
+		return
+	}
+	requests := genOut()
+	vassert(len(requests) > 8, "file was not requested")
+	stream, err := sender.VerifSendOneFile(requests, src, seed, false)
+	vassert(err == nil, "sender failed on the generator's request")
+	if err != nil {
+		return
+	}
+	all, err := receiver.VerifReceive(rt, fl, stream)
+	vassert(err == nil, "receiver failed on the sender's stream")
+	if err != nil {
+		return
+	}
+	vassert(all, "receiver did not consume the whole stream")
+	got := fsys.Get("f")
+	vassert(eq(got.Data, src), "destination differs from the source after a successful sync")
+	if len(stream) < len(src) {
+		vreach("delta-saved")
+	}
+	vreach("transferred")
+}
+
+func init() { verifHarnesses["HEndToEndBig"] = HEndToEndBig }
